@@ -90,21 +90,35 @@ func (r *Run) pickGoroutine() *Goroutine {
 	default:
 		// a scheduling decision: the current goroutine first (no preemption)
 		cands := runnable
+		if r.maxDelay >= 0 {
+			// delay-bounded exploration: the default schedule is the Go
+			// scheduler's usual one - the goroutine that became runnable last
+			// (runnext) goes first
+			cands = append([]*Goroutine(nil), runnable...)
+			sort.SliceStable(cands, func(i, j int) bool { return cands[i].readySeq > cands[j].readySeq })
+		}
 		if curRunnable {
+			base := cands
 			cands = []*Goroutine{r.cur}
-			for _, g := range runnable {
+			for _, g := range base {
 				if g != r.cur {
 					cands = append(cands, g)
 				}
 			}
 		}
-		d := r.decide(func() []int64 {
-			as := make([]int64, len(cands))
-			for i := range as {
-				as[i] = int64(i)
+		d := int64(0)
+		if r.maxDelay < 0 || r.delays < r.maxDelay {
+			d = r.decide(func() []int64 {
+				as := make([]int64, len(cands))
+				for i := range as {
+					as[i] = int64(i)
+				}
+				return as
+			})
+			if d != 0 {
+				r.delays++
 			}
-			return as
-		})
+		}
 		pick = cands[d]
 		if curRunnable && !voluntary && pick != r.cur {
 			r.preempts++
@@ -135,6 +149,8 @@ func (r *Run) wake(g *Goroutine, idx int, v Value, ok bool) {
 		sg.ch.remove(sg)
 	}
 	g.blocked = nil
+	r.readyCnt++
+	g.readySeq = r.readyCnt
 	for _, sg := range b.sudogs {
 		// the woken goroutine synchronises with the channel that woke it
 		r.raceAcquire(g, sg.ch)
